@@ -89,6 +89,14 @@ Theorem bound_values_exact : forall i xs,
         (is_null v = true -> d_default d = None -> x = zero_of d).
 Proof. exact bound_exact_conv. Qed.
 
+(* a dictionary-encoded (enum / dict_string) cell — top level, list item or
+   struct child — holds the dictionary entry selected by the row's INDEX, whatever
+   else the dictionary contains (unused entries, duplicates) *)
+Theorem dictionary_cell_binds_indexed_entry : forall ti tv o i d s,
+  (0 <= i)%Z -> nth_error d (Z.to_nat i) = Some s ->
+  conv_leaf KString (TDict ti tv o) (VD i d) = Some (VS s).
+Proof. exact dict_cell_indexed. Qed.
+
 Theorem resolve_column_is_positional : forall names ord name,
   nth_error names ord = Some name -> resolve names ord name = Some ord.
 Proof. exact resolve_positional. Qed.
@@ -146,3 +154,18 @@ Example premises_satisfiable :
     [[VS (str "hi"); VI 42; VL [VI 1; VI 0]]] /\
   cells_bind current ex_decl (ftypes ex_fields) ex_vals.
 Proof. vm_compute. repeat split; reflexivity. Qed.
+
+(* an enum field sent as index 2 into the dictionary [slow; fast; turbo; fast]
+   binds turbo; the same field as a list item binds per item *)
+Example dictionary_example :
+  let dt := TDict (TPrim (PInt true W16)) (TPrim PUtf8) false in
+  let d := [str "slow"; str "fast"; str "turbo"; str "fast"] in
+  let decl := [ {| d_name := str "mode"; d_go := GLeaf KString; d_ptr := false; d_over := OEnum;
+                   d_nullable := false; d_default := None |};
+                {| d_name := str "modes"; d_go := GSlice KString OEnum; d_ptr := false; d_over := ONone;
+                   d_nullable := false; d_default := None |} ] in
+  let fs := FCons (str "mode") dt false [] (FCons (str "modes") (TList dt true []) false [] FNil) in
+  derive decl = Some fs /\
+  o_trace (model {| i_decl := decl; i_sent := Plain fs [VD 2 d; VL [VD 3 d; VNull; VD 0 d]] |}) =
+    [[VS (str "turbo"); VL [VS (str "fast"); VS []; VS (str "slow")]]].
+Proof. vm_compute. split; reflexivity. Qed.
